@@ -494,48 +494,118 @@ inductive LStmt where
   | letG (l : Nat) (i : Nat) (e : LExpr)
   | expr (l : Nat) (e : LExpr)
   | block (l : Nat) (body : List LStmt)
-  | whileS (l : Nat) (c : LExpr) (body : List LStmt)
+  | whileS (l : Nat) (label : Option String) (c : LExpr) (body : List LStmt)
+  | loopS (l : Nat) (label : Option String) (body : List LStmt)
+  | breakS (l : Nat) (label : Option String)
+  | continueS (l : Nat) (label : Option String)
+  /-- `ls`: the line of the expression statement (its `Pop`); `l`: the line of the `if` token -/
+  | ifS (ls l : Nat) (c : LExpr) (thn els : List LStmt)
 deriving Repr
+
+def LStmt.isExprStmt : LStmt → Bool
+  | .expr .. | .ifS .. => true
+  | _ => false
 
 mutual
 def eraseS : LStmt → CStmt
   | .letG _ i e => .letG i (erase e)
   | .expr _ e => .expr (erase e)
   | .block _ body => .block (eraseP body)
-  | .whileS _ c body => .whileS (erase c) (eraseP body)
+  | .whileS _ lbl c body => .whileS lbl (erase c) (eraseP body)
+  | .loopS _ lbl body => .loopS lbl (eraseP body)
+  | .breakS _ lbl => .breakS lbl
+  | .continueS _ lbl => .continueS lbl
+  | .ifS _ _ c thn els => .ifS (erase c) (eraseP thn) (eraseP els)
 def eraseP : List LStmt → List CStmt
   | [] => []
   | s :: rest => eraseS s :: eraseP rest
 end
 
+theorem isExprStmt_eraseS (s : LStmt) : (eraseS s).isExprStmt = s.isExprStmt := by
+  cases s <;> simp [eraseS, CStmt.isExprStmt, LStmt.isExprStmt]
+
+/-- the lines of a statement in value position (the last statement of a branch of an `if` on
+line `lif`): an expression statement loses the line of its `Pop` with the `Pop`; after anything
+else the `Null` carries the `if`'s line -/
+def valueLines (isExpr : Bool) (lif : Nat) (ls : List Nat) : List Nat :=
+  if isExpr then ls.dropLast else ls ++ [lif]
+
 mutual
-/-- the lines of the instructions of `compileS pos k (eraseS s)` (`compile_statement`:
+/-- the lines of the instructions of `compileS pos k ctx (eraseS s)` (`compile_statement`:
 `DefineGlobal`: the `let`'s line; the `Pop` of an expression statement: the statement's line;
-`JumpIfFalse` and the backward `Jump` of a `while`: the `while`'s line; a block emits nothing) -/
+`JumpIfFalse` and the backward `Jump` of a `while` / `loop`: the loop's line; the `Jump` of a
+`break` / `continue`: its own line; the `JumpIfFalse`, `Jump` and `Null`s of an `if`: the
+`if`'s line; a block emits nothing) -/
 def lineTableS : LStmt → List Nat
   | .letG l _ e => lineTable e ++ [l]
   | .expr l e => lineTable e ++ [l]
   | .block _ body => lineTableP body
-  | .whileS l c body => lineTable c ++ [l] ++ lineTableP body ++ [l]
+  | .whileS l _ c body => lineTable c ++ [l] ++ lineTableP body ++ [l]
+  | .loopS l _ body => lineTableP body ++ [l]
+  | .breakS l _ => [l]
+  | .continueS l _ => [l]
+  | .ifS ls l c thn els => lineTable c ++ [l] ++ lineTableV l thn ++ [l] ++ lineTableV l els ++ [ls]
 def lineTableP : List LStmt → List Nat
   | [] => []
   | s :: rest => lineTableS s ++ lineTableP rest
+/-- a branch of an `if` on line `lif` -/
+def lineTableV (lif : Nat) : List LStmt → List Nat
+  | [] => [lif]
+  | s :: rest =>
+    match rest with
+    | [] => valueLines s.isExprStmt lif (lineTableS s)
+    | _ :: _ => lineTableS s ++ lineTableV lif rest
 end
 
+theorem lineTableV_single (lif : Nat) (s : LStmt) : lineTableV lif [s] = valueLines s.isExprStmt lif (lineTableS s) := by
+  rw [lineTableV]
+
+theorem lineTableV_cons2 (lif : Nat) (s s2 : LStmt) (rest : List LStmt) :
+    lineTableV lif (s :: s2 :: rest) = lineTableS s ++ lineTableV lif (s2 :: rest) := by
+  rw [lineTableV]
+
+theorem eraseP_cons (s : LStmt) (rest : List LStmt) : eraseP (s :: rest) = eraseS s :: eraseP rest := by rw [eraseP]
+
+/-- the lines of the `if` expression's code (without the statement's `Pop`) -/
+def lineTableIfV (l : Nat) (c : LExpr) (thn els : List LStmt) : List Nat :=
+  lineTable c ++ [l] ++ lineTableV l thn ++ [l] ++ lineTableV l els
+
 mutual
-theorem lineTableS_length (pos k : Nat) : ∀ s : LStmt, (lineTableS s).length = (compileS pos k (eraseS s)).length
+theorem lineTableS_length (pos k : Nat) (ctx : List LoopCtx) : ∀ s : LStmt, (lineTableS s).length = (compileS pos k ctx (eraseS s)).length
   | .letG l i e => by simp [lineTableS, eraseS, compileS, lineTable_length pos k e]
   | .expr l e => by simp [lineTableS, eraseS, compileS, lineTable_length pos k e]
-  | .block l body => by simpa [lineTableS, eraseS, compileS] using lineTableP_length pos k body
-  | .whileS l c body => by
+  | .block l body => by simpa [lineTableS, eraseS, compileS] using lineTableP_length pos k ctx body
+  | .whileS l lbl c body => by
     simp only [lineTableS, eraseS, compileS, List.length_append, List.length_cons, List.length_nil]
-    rw [lineTable_length pos k c, lineTableP_length (pos + bytes (compile pos k (erase c)) + 3) (k + (consts (erase c)).length) body]
-theorem lineTableP_length (pos k : Nat) : ∀ ss : List LStmt, (lineTableP ss).length = (compileP pos k (eraseP ss)).length
+    rw [lineTable_length pos k c, lineTableP_length _ _ _ body]
+  | .loopS l lbl body => by
+    simp only [lineTableS, eraseS, compileS, List.length_append, List.length_cons, List.length_nil]
+    rw [lineTableP_length _ _ _ body]
+  | .breakS l lbl => by simp [lineTableS, eraseS, compileS]
+  | .continueS l lbl => by simp [lineTableS, eraseS, compileS]
+  | .ifS ls l c thn els => by
+    simp only [lineTableS, eraseS, compileS, List.length_append, List.length_cons, List.length_nil]
+    rw [lineTable_length pos k c, lineTableV_length _ _ _ _ thn, lineTableV_length _ _ _ _ els]
+theorem lineTableP_length (pos k : Nat) (ctx : List LoopCtx) : ∀ ss : List LStmt, (lineTableP ss).length = (compileP pos k ctx (eraseP ss)).length
   | [] => by simp [lineTableP, eraseP, compileP]
   | s :: rest => by
     simp only [lineTableP, eraseP, compileP, List.length_append]
-    rw [lineTableS_length pos k s, lineTableP_length (pos + bytes (compileS pos k (eraseS s))) (k + (constsS (eraseS s)).length) rest]
+    rw [lineTableS_length pos k ctx s, lineTableP_length _ _ _ rest]
+theorem lineTableV_length (lif pos k : Nat) (ctx : List LoopCtx) : ∀ ss : List LStmt, (lineTableV lif ss).length = (branchV pos k ctx (eraseP ss)).length
+  | [] => by simp [lineTableV, eraseP, branchV]
+  | [s] => by
+    have hs := lineTableS_length pos k ctx s
+    rw [lineTableV_single, eraseP_cons, eraseP, branchV_single, isExprStmt_eraseS]
+    cases hx : s.isExprStmt <;> simp [valueLines, valueOf, hs]
+  | s :: s2 :: rest => by
+    rw [lineTableV_cons2, eraseP_cons, eraseP_cons, branchV_cons2, List.length_append, List.length_append,
+      lineTableS_length pos k ctx s, lineTableV_length lif _ _ ctx (s2 :: rest), eraseP_cons]
 end
+
+theorem lineTableIfV_length (pos k : Nat) (ctx : List LoopCtx) (l : Nat) (c : LExpr) (thn els : List LStmt) :
+    (lineTableIfV l c thn els).length = (ifV pos k ctx (erase c) (eraseP thn) (eraseP els)).length := by
+  simp only [lineTableIfV, ifV, List.length_append, List.length_cons, List.length_nil]
+  rw [lineTable_length pos k c, lineTableV_length _ _ _ _ thn, lineTableV_length _ _ _ _ els]
 
 mutual
 /-- `some L`: the reference evaluation (with this fuel) of the statement is a runtime error
@@ -549,20 +619,37 @@ def failLineS : Nat → List Val → LStmt → Option Nat
      | none => failLine g e)
   | _+1, g, .expr _ e => failLine g e
   | fuel+1, g, .block _ body => failLineP fuel g body
-  | fuel+1, g, .whileS l c body =>
+  | fuel+1, g, .whileS l lbl c body =>
     (match eval g (erase c) with
      | some (vc, g1) =>
        if vc.isFalsey then none
        else (match evalP fuel g1 (eraseP body) with
-         | some g2 => failLineS fuel g2 (.whileS l c body)
+         | some (g2, f) =>
+           (match loopAct lbl f with
+            | .again => failLineS fuel g2 (.whileS l lbl c body)
+            | _ => none)
          | none => failLineP fuel g1 body)
+     | none => failLine g c)
+  | fuel+1, g, .loopS l lbl body =>
+    (match evalP fuel g (eraseP body) with
+     | some (g2, f) =>
+       (match loopAct lbl f with
+        | .again => failLineS fuel g2 (.loopS l lbl body)
+        | _ => none)
+     | none => failLineP fuel g body)
+  | _+1, _, .breakS .. => none
+  | _+1, _, .continueS .. => none
+  | fuel+1, g, .ifS _ _ c thn els =>
+    (match eval g (erase c) with
+     | some (vc, g1) => if vc.isFalsey then failLineP fuel g1 els else failLineP fuel g1 thn
      | none => failLine g c)
 def failLineP : Nat → List Val → List LStmt → Option Nat
   | 0, _, _ => none
   | _+1, _, [] => none
   | fuel+1, g, s :: rest =>
     (match evalS fuel g (eraseS s) with
-     | some g1 => failLineP fuel g1 rest
+     | some (g1, .normal) => failLineP fuel g1 rest
+     | some _ => none
      | none => failLineS fuel g s)
 end
 
@@ -596,7 +683,37 @@ theorem failLine_sound : ∀ fuel,
         simp only [failLineS] at h
         simp only [eraseS, evalS]
         exact ih.2 g body L h
-      | whileS l c body =>
+      | breakS l lbl => simp [failLineS] at h
+      | continueS l lbl => simp [failLineS] at h
+      | ifS ls l c thn els =>
+        simp only [failLineS] at h
+        simp only [eraseS, evalS]
+        cases he : eval g (erase c) with
+        | none => rfl
+        | some r =>
+          obtain ⟨vc, g1⟩ := r
+          simp only [he] at h ⊢
+          by_cases hf : vc.isFalsey = true
+          · simp only [hf, if_true] at h ⊢
+            exact ih.2 g1 els L h
+          · simp only [hf, Bool.false_eq_true, if_false] at h ⊢
+            exact ih.2 g1 thn L h
+      | loopS l lbl body =>
+        simp only [failLineS] at h
+        simp only [eraseS, evalS]
+        cases hb : evalP fuel g (eraseP body) with
+        | none => rfl
+        | some r =>
+          obtain ⟨g2, f⟩ := r
+          simp only [hb] at h ⊢
+          cases ha : loopAct lbl f with
+          | again =>
+            simp only [ha] at h ⊢
+            have := ih.1 g2 (.loopS l lbl body) L h
+            simpa [eraseS] using this
+          | exit => simp [ha] at h
+          | propagate => simp [ha] at h
+      | whileS l lbl c body =>
         simp only [failLineS] at h
         simp only [eraseS, evalS]
         cases he : eval g (erase c) with
@@ -609,10 +726,16 @@ theorem failLine_sound : ∀ fuel,
           · simp only [hf, Bool.false_eq_true, if_false] at h ⊢
             cases hb : evalP fuel g1 (eraseP body) with
             | none => rfl
-            | some g2 =>
+            | some r2 =>
+              obtain ⟨g2, f⟩ := r2
               simp only [hb] at h ⊢
-              have := ih.1 g2 (.whileS l c body) L h
-              simpa [eraseS] using this
+              cases ha : loopAct lbl f with
+              | again =>
+                simp only [ha] at h ⊢
+                have := ih.1 g2 (.whileS l lbl c body) L h
+                simpa [eraseS] using this
+              | exit => simp [ha] at h
+              | propagate => simp [ha] at h
     · intro g ss L h
       cases ss with
       | nil => simp [failLineP] at h
@@ -621,9 +744,14 @@ theorem failLine_sound : ∀ fuel,
         simp only [eraseP, evalP]
         cases hs : evalS fuel g (eraseS s) with
         | none => rfl
-        | some g1 =>
-          simp only [hs] at h ⊢
-          exact ih.2 g1 rest L h
+        | some r =>
+          obtain ⟨g1, f⟩ := r
+          cases f with
+          | normal =>
+            simp only [hs] at h ⊢
+            exact ih.2 g1 rest L h
+          | brk l => simp [hs] at h
+          | cont l => simp [hs] at h
 
 /-! ## executable run that keeps the state in which the machine is stuck -/
 
